@@ -4,8 +4,8 @@
 package fw
 
 import (
-	"compress/gzip"
 	"bytes"
+	"compress/gzip"
 	"fmt"
 	"io"
 	"net/http"
@@ -39,10 +39,11 @@ type Fault struct {
 	Status  int    `json:"status,omitempty"` // for kind=status (4xx/5xx with JSON error body) or ok (200..203)
 	Records int    `json:"records,omitempty"`
 	CT      string `json:"content_type,omitempty"`
-	Body    []byte `json:"-"`                // overrides the origin-tagged body
-	GapUS   int    `json:"gap_us,omitempty"` // pause between the body writes
+	Body    []byte `json:"-"`                  // overrides the origin-tagged body
+	GapUS   int    `json:"gap_us,omitempty"`   // pause between the body writes
 	StallMS int    `json:"stall_ms,omitempty"` // how long a stalling backend holds on (default 1500)
-	Gzip    bool   `json:"gzip,omitempty"`   // the backend answers with Content-Encoding: gzip (the body bytes are what they are)
+	Trailer bool   `json:"trailer,omitempty"`  // chunked answer that ends with a trailer field (X-Checksum), announced in its headers
+	Gzip    bool   `json:"gzip,omitempty"`     // the backend answers with Content-Encoding: gzip (the body bytes are what they are)
 }
 
 func (f Fault) String() string {
@@ -58,6 +59,9 @@ func (f Fault) String() string {
 	}
 	if f.Gzip {
 		s += "/gzip"
+	}
+	if f.Trailer {
+		s += "/trailer"
 	}
 	return s
 }
@@ -184,7 +188,14 @@ func (f *FW) answer(i int, r *backend.Record) *backend.Resp {
 	if ft.Gzip {
 		hdr = append(hdr, [2]string{"Content-Encoding", "gzip"})
 	}
+	if ft.Trailer {
+		hdr = append(hdr, [2]string{"Trailer", "X-Checksum"})
+	}
 	resp := &backend.Resp{Status: 200 + i, Headers: hdr, Body: body, Chunked: ft.Chunked, MaxStall: 1500 * time.Millisecond}
+	if ft.Trailer {
+		resp.Chunked = true
+		resp.Trailers = [][2]string{{"X-Checksum", "sum-" + origin}}
+	}
 	at.Status = resp.Status
 	switch ft.Kind {
 	case "ok", "":
